@@ -218,6 +218,10 @@ def k_sec_header(ctx, service, subservice, msg_counter, dest_id, time_ref, ts):
               "unpack", "", case, observed=repr(h))
     if ok:
         ctx.check("tm.sec_header", h.header_size == 7 + len(ts_b), "header_size", "", case, observed=h.header_size)
+    ok, h = attempt(tmm.PusTmSecondaryHeader.unpack, want, len(ts_b))     # exactly the packed octets, nothing behind them
+    ctx.check("tm.sec_header", ok and (h.service, h.subservice, h.message_counter, h.dest_id, h.spacecraft_time_ref,
+                                      bytes(h.timestamp)) == (service, subservice, msg_counter, dest_id, time_ref, ts_b),
+              "unpack_exact_octets", "", case, observed=repr(h))
 
 
 def poison_tm(r):
